@@ -152,6 +152,7 @@ PROPERTY_RULES: Dict[str, List[Scoped]] = {
         _r("READONLY-INPUT"),
         _r("MASK-RANGE"), _r("ENUM-NO-TRUNCATION", S_COMPUTE),
         _r("MODEL-TABLE"), _r("LABEL-SIBLINGS"), _r("CONSERVED-SIDE"),
+        _r("GRAPH-KEYS"),
     ],
     "C11": [
         _r("DICT-KEYS"), _r("FIELDS-SERIALISED"), _r("TREE-WRITE-ARGS"), _r("ENUM-DISJOINT"), _r("MAPPING-KEYING"),
